@@ -1,6 +1,7 @@
 import Model.History
 import Model.Feed
-import Generated.GoCode
+import Generated.GoHistory
+import Generated.GoFeed
 
 /-
   Helper lemmas for `Props/Gen18.lean`: closed forms for the `for i, e := range input` loops of
